@@ -119,3 +119,18 @@ class Path:
         return f"[{cs}] {self.effects} -> {self.outcome} {self.value!r}"
 
 
+
+
+def nonempty_term(t):
+    """Canonical subject of an emptiness decision: a sequence built from another one item by item (tuple(x), a comprehension over x,
+    len(x) iterations) is empty exactly when x is, so they all share one decision."""
+    while isinstance(t, tuple) and t:
+        if t[0] == "tuple" and len(t) == 2:
+            t = t[1]
+        elif t[0] == "repeat" and len(t) >= 2 and isinstance(t[1], tuple) and t[1][:1] == ("len",) and len(t[1]) == 2:
+            t = t[1][1]
+        elif t[0] == "gen" and len(t) == 3 and t[2] == 0:
+            t = t[1]
+        else:
+            break
+    return ("nonempty", t)
